@@ -486,8 +486,8 @@ LEVEL_TEXT = (
     "the arithmetic assumptions are themselves proved for the model: ieee_good), fsspec seek_delimiter/read_block, str.split, decode, "
     "file_to_blocks: blocks_concat_file, boundary_after_delimiter, lines_blocksize_independent (all blocksizes incl. none, for "
     "border-free delimiters; refuted with a witness for self-overlapping ones = known finding), decode = split-after-delimiter without "
-    "empty trailing element, universal-newline default, files_per_partition/include_path. Validated only: fsspec's chunked read loop "
-    "against the one-shot search, UTF-8, encodings, compression. File sizes < 2^53.")
+    "empty trailing element, universal-newline default, files_per_partition/include_path, fsspec's chunked read loop = one-shot search. "
+    "Validated only: UTF-8 self-synchronisation, encodings, compression. File sizes < 2^53.")
 LEVEL_NOTE = (
     "Trusted: Lean kernel + standard axioms; the correspondence harness (function-level diffs against dask and fsspec, "
     "API-level read_bytes/read_text on in-memory and temp files); CPython float/str semantics; UTF-8 self-synchronisation; "
